@@ -400,6 +400,153 @@ fn stimulus_bfs(depth: usize) -> (u64, u64, Bad) {
     (trans, states, bad)
 }
 
+/// Programs for (d): the interrupt-using programs of C04 (one body element each, three routines) and
+/// hostile ones written in bytes (vector at 0, routine at 2).
+fn phase_programs() -> Vec<(String, [u8; 240])> {
+    let mut v = crate::c04::images_for_phase_sweep();
+    let mk = |name: &str, isr: &[u8], main: &[u8]| -> (String, [u8; 240]) {
+        let mut ram = [0u8; 240];
+        for (i, b) in ram.iter_mut().enumerate() {
+            *b = (i as u8).wrapping_mul(37) ^ 0x5C;
+        }
+        sw::place(&mut ram, 0, &[0x20, 0x0E]); // JR 0x10
+        sw::place(&mut ram, 2, isr);
+        // LDSP 0xEF ; BITS (0xF9),1 ; EI ; main...
+        let mut m = vec![0xFB, 0xEF, 0x40, 0xFB, 0x01, 0x5F, 0xF9, 0x08];
+        m.extend_from_slice(main);
+        sw::place(&mut ram, 0x10, &m);
+        (format!("hostile:{}", name), ram)
+    };
+    // main code starts at 0x18
+    v.push(mk("reti-loop", &[0x2C], &[0x18, 0xFB, 0x1F, 0x10, 0x10, 0x2C, 0x02, 0x20, 0xF7])); // L: PUSHF ; LD R0,0x1F ; PUSH R0 ; RETI ; NOP ; JR L
+    v.push(mk("bare-reti-loop", &[0x2C], &[0x2C, 0x20, 0xFD])); // RETI ; JR -3 (pops garbage)
+    v.push(mk("isr-enables-itself", &[0x08, 0x02, 0x2C], &[0x02, 0x20, 0xFD])); // EI ; NOP ; RETI | NOP ; JR
+    v.push(mk("isr-never-returns", &[0x08, 0x20, 0xFD], &[0x02, 0x20, 0xFD]));
+    v.push(mk("ei-di-toggle", &[0x2C], &[0x08, 0x0C, 0x20, 0xFC]));
+    v.push(mk("isr-clears-enable", &[0xFB, 0x01, 0x6F, 0xF9, 0x2C], &[0x02, 0x20, 0xFD])); // BITC (0xF9),1 ; RETI
+    v.push(mk("isr-writes-misr", &[0xFB, 0xFF, 0x1F, 0xFA, 0xFB, 0x00, 0x1F, 0xFA, 0x2C], &[0x02, 0x20, 0xFD]));
+    v.push(mk("stop-with-ie", &[0x2C], &[0x02, 0x01, 0x20, 0xFC]));
+    v.push(mk("ret-instead-of-reti", &[0x17], &[0x02, 0x20, 0xFD]));
+    v.push(mk("reti-into-vector", &[0x2C], &[0xFB, 0x00, 0x10, 0x18, 0x10, 0x2C])); // LD R0,0 ; PUSHF ; PUSH R0 ; RETI -> PC 0
+    v.push(mk("mul-div-loop", &[0x10, 0xB4, 0x14, 0x2C], &[0xB4, 0xC9, 0x20, 0xFC]));
+    v
+}
+
+/// (d) Every stimulus before every clock edge of interrupt-using programs (phase x stimulus), and every
+/// ordered pair of key presses in a window; all getters read on the 12 edges after the stimulus and
+/// at the end. Oracle: no panic.
+fn phase_sweep(quick: bool) -> (u64, u64, u64, Bad) {
+    let progs = phase_programs();
+    let ev: Vec<Ev> = stimuli().into_iter().filter(|e| !matches!(e, Ev::Edge)).collect();
+    let horizon: u32 = 230;
+    let after: u32 = if quick { 90 } else { 200 };
+    let start = |ram: &[u8; 240]| -> Machine {
+        let mut m = Machine::new(MachineConfig::default());
+        m.raw_mut().set_stacksize(Stacksize::_16);
+        m.raw_mut().set_programsize(Programsize::Size(255));
+        *m.raw_mut().bus_mut().memory_mut() = *ram;
+        m
+    };
+    let res = mc::par_ranges(progs.len(), 1, |rg| {
+        let mut bad = Bad::new();
+        let mut runs = 0u64;
+        let mut edges = 0u64;
+        let mut digests = std::collections::HashSet::new();
+        for pi in rg {
+            let (name, ram) = &progs[pi];
+            // machines at every phase (prefix of the undisturbed run)
+            let mut at: Vec<Machine> = vec![];
+            let built = mc::catch(|| {
+                let mut v = vec![];
+                let mut m = start(ram);
+                for _ in 0..horizon {
+                    v.push(m.clone());
+                    m.raw_mut().trigger_clock_edge();
+                }
+                v
+            });
+            match built {
+                Ok(v) => at = v,
+                Err(p) => note(&mut bad, &p, format!("phase prog={} t=- ev=-", pi), format!("undisturbed run of {}", name)),
+            }
+            let mut one = |line: String, m0: &Machine, evs: &[(u32, Ev)], bad: &mut Bad| {
+                mc::watch::progress(|| line.clone());
+                let r = mc::catch(|| {
+                    let mut m = m0.clone();
+                    let mut d = 0u64;
+                    let last = evs.last().map(|x| x.0).unwrap_or(0);
+                    let mut k = 0;
+                    let mut n = 0u64;
+                    for t in 0..=last + after {
+                        while k < evs.len() && evs[k].0 == t {
+                            apply(&mut m, evs[k].1);
+                            k += 1;
+                        }
+                        if t + 12 >= last && t <= last + 12 {
+                            d = d.wrapping_mul(1099511628211).wrapping_add(read_everything(&m));
+                        }
+                        m.raw_mut().trigger_clock_edge();
+                        n += 1;
+                    }
+                    d = d.wrapping_mul(1099511628211).wrapping_add(read_everything(&m));
+                    let _ = format!("{:?}", m);
+                    (d, n)
+                });
+                match r {
+                    Ok((d, n)) => Some((d, n)),
+                    Err(p) => {
+                        note(bad, &p, line, format!("stimulus at a phase of {}", name));
+                        None
+                    }
+                }
+            };
+            for (t, m0) in at.iter().enumerate() {
+                for e in &ev {
+                    // quick: the CPU-side stimuli at every phase, board/input stimuli at every 4th
+                    let cpu_side = matches!(e, Ev::KeyClock | Ev::Interrupt | Ev::Continue | Ev::CpuReset | Ev::MasterReset | Ev::ToggleStep | Ev::LoadRaw(_) | Ev::ResetRam);
+                    if quick && !cpu_side && t % 4 != 0 {
+                        continue;
+                    }
+                    runs += 1;
+                    if let Some((d, n)) = one(format!("phase prog={} t={} ev={:?}", pi, t, e).replace(' ', ""), m0, &[(0, *e)], &mut bad) {
+                        digests.insert(d);
+                        edges += n;
+                    }
+                }
+            }
+            // pairs of key presses: t1 in the window, t2 - t1 in 0..=w
+            let (w0, w1, gap) = if quick { (20usize, 120usize, 40u32) } else { (0usize, 200usize, 80u32) };
+            for t1 in w0..w1.min(at.len()) {
+                for dt in 0..=gap {
+                    runs += 1;
+                    if let Some((d, n)) = one(format!("phase prog={} t={} ev=Interrupt,+{},Interrupt", pi, t1, dt), &at[t1], &[(0, Ev::Interrupt), (dt, Ev::Interrupt)], &mut bad) {
+                        digests.insert(d);
+                        edges += n;
+                    }
+                }
+            }
+        }
+        mc::watch::idle();
+        (runs, edges, digests.len() as u64, bad)
+    });
+    let mut out = (0, 0, 0, Bad::new());
+    for (r, e, d, b) in res {
+        out.0 += r;
+        out.1 += e;
+        out.2 += d;
+        for (k, (cn, cases)) in b {
+            let x = out.3.entry(k).or_default();
+            x.0 += cn;
+            for cs in cases {
+                if x.1.len() < 4 {
+                    x.1.push(cs);
+                }
+            }
+        }
+    }
+    out
+}
+
 pub fn run() {
     let mut ctx = Ctx::from_args("exploration");
     if let Some(f) = ctx.replay_file.clone() {
@@ -422,6 +569,38 @@ pub fn run() {
                     ctx.violation(format!("panic/{}:{}", p.file(), crate::c02::panic_class(&p.msg)), p.msg, text.clone());
                     break;
                 }
+            }
+        } else if l.starts_with("phase ") {
+            let kv = mc::kv(l);
+            let progs = phase_programs();
+            let (pi, t) = (mc::num(&kv["prog"]) as usize, mc::num(&kv["t"]) as u32);
+            let evs: Vec<(u32, Ev)> = if let Some(rest) = kv["ev"].strip_prefix("Interrupt,+") {
+                let dt: u32 = rest.split(',').next().unwrap().parse().unwrap();
+                vec![(t, Ev::Interrupt), (t + dt, Ev::Interrupt)]
+            } else {
+                stimuli().into_iter().filter(|e| format!("{:?}", e).replace(' ', "") == kv["ev"]).map(|e| (t, e)).collect()
+            };
+            println!("program {}: events {:?}", progs[pi].0, evs);
+            let r = mc::catch(|| {
+                let mut m = Machine::new(MachineConfig::default());
+                m.raw_mut().set_stacksize(Stacksize::_16);
+                m.raw_mut().set_programsize(Programsize::Size(255));
+                *m.raw_mut().bus_mut().memory_mut() = progs[pi].1;
+                let last = evs.last().map(|x| x.0).unwrap_or(0);
+                for e in 0..=last + 200 {
+                    for (te, ev) in &evs {
+                        if *te == e {
+                            apply(&mut m, *ev);
+                        }
+                    }
+                    read_everything(&m);
+                    m.raw_mut().trigger_clock_edge();
+                }
+                let _ = format!("{:?}", m);
+            });
+            println!("{:?}", r.as_ref().map(|_| "no panic").map_err(|p| format!("{} at {}", p.msg, p.site())));
+            if let Err(p) = r {
+                ctx.violation(format!("panic/{}:{}", p.file(), crate::c02::panic_class(&p.msg)), p.msg, text.clone());
             }
         } else {
             println!("replay of this case kind: re-run the check (seconds); line was: {}", l);
@@ -453,18 +632,22 @@ pub fn run() {
     // (c)
     let (trans, states, bc) = stimulus_bfs(if quick { 3 } else { 4 });
     merge(&mut bad, bc);
+    // (d)
+    let (pruns, pedges, pdig, bd) = phase_sweep(quick);
+    merge(&mut bad, bd);
     for (k, (n, cases)) in &bad {
         for (l, w) in cases.iter().take(3) {
             ctx.violation(k.clone(), format!("{} ({} cases in class)", w, n), l.clone());
         }
     }
-    ctx.set("evaluations", r2 + r3 + nb + trans);
-    ctx.set("distinct_nontrivial", states + ends2[0] + ends2[1] + ends3[0] + ends3[1]);
-    ctx.set("rule", "(a) every 2-byte program head (thorough: also every 3-byte head) followed by a hostile tail, x 5 stack sizes x 3 program-size limits, clocked to a halt or the edge bound, then all getters read and one more edge; (b) every bus address x every value through a 7-instruction program and through direct Bus calls, after 6 board configurations x 2 register presets; (c) every stimulus sequence to the depth from 8 program states, all getters read and one edge after each event. Oracle: no panic. distinct_nontrivial = distinct stimulus-sequence observation digests + runs that ended in a halt");
+    ctx.set("evaluations", r2 + r3 + nb + trans + pruns);
+    ctx.set("distinct_nontrivial", states + pdig + ends2[0] + ends2[1] + ends3[0] + ends3[1]);
+    ctx.set("phase_sweep", format!("{} programs (75 of C04's interrupt programs + 11 hostile ones) x every clock edge 0..230 x {} stimuli + ordered pairs of key presses in a window: {} runs, {} edges, {} distinct observation digests", phase_programs().len(), stimuli().len() - 1, pruns, pedges, pdig));
+    ctx.set("rule", "(a) every 2-byte program head (thorough: also every 3-byte head) followed by a hostile tail, x 5 stack sizes x 3 program-size limits, clocked to a halt or the edge bound, then all getters read and one more edge; (b) every bus address x every value through a 7-instruction program and through direct Bus calls, after 6 board configurations x 2 register presets; (c) every stimulus sequence to the depth from 8 program states, all getters read and one edge after each event; (d) every stimulus before every clock edge of interrupt-using and hostile programs, and pairs of key presses, getters read on the edges around the stimulus, Debug formatted at the end. Oracle: no panic. distinct_nontrivial = distinct stimulus-sequence observation digests + runs that ended in a halt");
     ctx.set("exhaustive", true);
     ctx.set("bounds", format!("2-byte heads: {} runs / {} edges; 3-byte heads: {} runs / {} edges; address x value cases: {}; stimulus sequences depth {} over {} events from 8 states: {} transitions", r2, e2, r3, e3, nb, if quick { 3 } else { 4 }, stimuli().len(), trans));
     ctx.set("head_runs_ending", Json::Arr(vec![Json::Str(format!("2-byte: Stopped={} ErrorStopped={} Running={}", ends2[0], ends2[1], ends2[2])), Json::Str(format!("3-byte: Stopped={} ErrorStopped={} Running={}", ends3[0], ends3[1], ends3[2]))]));
-    ctx.set("edges_clocked", e2 + e3);
+    ctx.set("edges_clocked", e2 + e3 + pedges);
     ctx.set("distinct_outcomes", states);
     ctx.sample(format!("head bytes=f1,40 stack=_16 tail={}", mc::hex(&tail())));
     ctx.sample(format!("stimuli: {:?}", &stimuli()[..12]));
